@@ -1,6 +1,7 @@
 import UtilModel.Treiber.Proofs
 import UtilModel.Treiber.Reduced
 import UtilModel.Treiber.MonProofs
+import UtilModel.Treiber.LinTextbook
 /-!
 # AtomicLIFO — property theorems (C12, component `lifo`)
 
@@ -99,10 +100,9 @@ theorem abs_denotes (es : List Ev) (s : St) (h : model.run model.init es = some 
     Denotes s.heap s.top (abs s) :=
   abs_denotes_of_ord s (reachable_ord es s h)
 
-/-- **C12 (monitor form).** Every observable trace of the model is accepted by `monC12` (no value
-is popped more often than its `Push` was invoked — in particular, with distinct values, never
-twice and never before its push was invoked; a `Pop` that overlaps no other call returns the zero
-value only if every value pushed so far has been popped). -/
+/-- **C12 (monitor form).** Every observable trace of the model is accepted by `monC12` (no non-zero
+value is popped more often than its `Push` was invoked — with distinct values: never twice and never
+before its push was invoked). -/
 theorem C12_obs_lifo (es : List Ev) (s : St) (h : model.run model.init es = some s) :
     monC12.accepts (es.filterMap model.obs) = true :=
   monC12_of_linearizable _ (treiber_linearizable es s h)
